@@ -517,10 +517,8 @@ def evaluate(ctx, cases):
     drv = ctx.driver
     gens = []
     for kind, a in cases:
-        fn = HANDLERS.get(kind)
-        if fn is None:
-            raise ValueError('unknown case kind %r' % (kind,))
-        gens.append([kind, a, fn(ctx, kind, a), None, False])
+        kind = base_kind(kind)
+        gens.append([kind, a, HANDLERS[kind](ctx, kind, a), None, False])
     # prime
     for g in gens:
         _advance(ctx, g, None)
@@ -536,6 +534,25 @@ def evaluate(ctx, cases):
         res = pbatch(drv, reqs)
         for g, (st, n) in zip(active, spans):
             _advance(ctx, g, res[st:st + n])
+
+
+def base_kind(kind):
+    """a replayed record may carry a derived kind (zbad_spec, link_dump, gabi_builder ...): the case that produced
+    it is the one of the generating kind, which re-records every derived comparison"""
+    if kind in HANDLERS:
+        return kind
+    if kind in KIND_ALIAS:
+        return KIND_ALIAS[kind]
+    best = None
+    for k in HANDLERS:
+        if kind.startswith(k + '_') and (best is None or len(k) > len(best)):
+            best = k
+    if best is None:
+        raise ValueError('unknown case kind %r' % (kind,))
+    return best
+
+
+KIND_ALIAS = {'presence_independent': 'presence_file'}
 
 
 def _advance(ctx, g, answers):
@@ -983,6 +1000,10 @@ def h_bad(ctx, kind, a):
         elif mut == 'short12': fb = fb[:12]
         elif mut == 'short5': fb = fb[:5]
         edits = {i: {'name': b'.zdebug_info', 'body': fb}}
+        # C++ objects carry several .debug_info sections (comdat type units): the name must denote the framed one
+        for j, sj in enumerate(elf.secs):
+            if j != i and sj['name'] == b'.debug_info':
+                edits[j] = {'name': b'.shadowed_debug_info'}
     else:
         (fb,) = yield [['gabi_body', elf.le, elf.is64, 0, size, 1, blob]]
         if mut == 'type':
